@@ -436,6 +436,7 @@ func (run *liveRun) natives(vm *goatlang.VM) {
 	vm.Set("host.Obs", goatlang.NewFunc(3, 0, func(v *goatlang.VM, a []goatlang.Value) {
 		run.obs(a[0].String(), a[1].Int(), a[2])
 	}))
+	vm.Set("host.Mk", goatlang.NewFunc(0, 1, func(v *goatlang.VM) goatlang.Value { return goatlang.Error(fmt.Errorf("a host object")) }))
 }
 
 func (run *liveRun) onYield(h *core.Host) {
@@ -1002,8 +1003,16 @@ func (run *liveRun) obs(kind string, id int, val goatlang.Value) {
 			run.setObs++
 			return
 		}
-		if !run.zvals[id][v] {
-			run.fail("C17/reinit", "zero-initialiser", "variable %d declared with initialiser 0 holds %d; after the loads and %d bump() calls so far it can hold %v", id, v, run.S, keysOf(run.zvals[id]))
+		ok := run.zvals[id][v]
+		if e := run.w.ent(id); e != nil && e.Tmpl >= 4 {
+			// the nil-initialised variant reports 0 (nil) or 1 (holds the object bump() stored)
+			ok = false
+			for c := range run.zvals[id] {
+				ok = ok || (c > 0) == (v == 1)
+			}
+		}
+		if !ok {
+			run.fail("C17/reinit", "zero-initialiser", "variable %d declared with initialiser 0 (nil variant: 0 = nil, 1 = holds an object) holds %d; after the loads and %d bump() calls so far it can hold %v", id, v, run.S, keysOf(run.zvals[id]))
 		}
 	case "sa":
 		if v != run.S {
